@@ -213,6 +213,11 @@ dt_io_find_strpdt2(
 			}
 
 			for (; q < zp && q <= r; q++) {
+				if (*q == ' ') {
+					/* blanks are not the start of anything,
+					 * or -S would swallow them */
+					continue;
+				}
 				if (!dt_unk_p(d = dt_strpdt(q, fmt, ep))) {
 					p = q;
 					goto found;
